@@ -661,6 +661,14 @@ func (x *Exec) evalCall(env *Env, e *ECall) (Value, types.Type) {
 		sv, _ := x.eval(env, e.Args[0])
 		iv, _ := x.eval(env, e.Args[1])
 		return ufApp(ufSRune, sv.(*Term), iv.(*Term)), types.Typ[types.Int32]
+	case "runeLen": // runeLen(s): number of runes of string s (len([]rune(s)))
+		sv, _ := x.eval(env, e.Args[0])
+		return ufApp(ufSRuneLen, sv.(*Term)), types.Typ[types.Int]
+	case "runeSub": // runeSub(s, lo, hi): string([]rune(s)[lo:hi])
+		sv, _ := x.eval(env, e.Args[0])
+		lo, _ := x.eval(env, e.Args[1])
+		hi, _ := x.eval(env, e.Args[2])
+		return ufApp(ufSRuneSub, sv.(*Term), lo.(*Term), hi.(*Term)), types.Typ[types.String]
 	case "was": // was(g, x): the ghost g of the node x denotes NOW, looked up in the old() state
 		gname := e.Args[0].(*EIdent).Name
 		g := x.sp.Ghosts[gname]
